@@ -22,11 +22,27 @@ class Result:
         return {'rc': self.rc, 'out': self.out[:300], 'err': self.err[-300:], 'exc': self.exc_key}
 
 
-def run_main(args):
-    """Runs main(['graphtage', *args]) with in-memory stdout/stderr. Never raises for exceptions escaping main()."""
+class _Stdin:
+    """what main() needs of standard input: sys.stdin.buffer.read()"""
+    def __init__(self, data):
+        import io
+        self.buffer = io.BytesIO(data)
+
+    def read(self, *a):
+        return self.buffer.read(*a).decode('utf-8', 'replace')
+
+    def isatty(self):
+        return False
+
+
+def run_main(args, stdin=None):
+    """Runs main(['graphtage', *args]) with in-memory stdout/stderr (and standard input, if bytes are given). Never raises
+    for exceptions escaping main()."""
     out, err = common.Cap(), common.Cap()
-    so, se = sys.stdout, sys.stderr
+    so, se, si = sys.stdout, sys.stderr, sys.stdin
     sys.stdout, sys.stderr = out, err
+    if stdin is not None:
+        sys.stdin = _Stdin(stdin)
     rc, exc, key = None, None, None
     import logging
     # main() configures logging with logging.basicConfig(stream=Printer(sys.stderr)), which is a no-op once the root logger
@@ -48,7 +64,7 @@ def run_main(args):
             frame = innermost_repo_frame(e.__traceback__) or 'outside-repo'
             key = f"{type(e).__name__}@{frame}"
     finally:
-        sys.stdout, sys.stderr = so, se
+        sys.stdout, sys.stderr, sys.stdin = so, se, si
         for h in list(logging.root.handlers):
             logging.root.removeHandler(h)
         logging.root.setLevel(logging.WARNING)
